@@ -126,3 +126,21 @@ def target_call_sites():
     if extra:
         return False, "new call site(s) of Target operations without a contract: %s" % sorted(extra)
     return True, "Target operations are called from %s" % sorted(got & want)
+
+
+@scan("read_only_guards")
+def read_only_guards():
+    """Both target-mutating constructs are guarded by the read-only check at compile time."""
+    a = C.read(os.path.join(C.REPO, "src/compiler/expression/assignment.rs"))
+    cut = a.find("#[cfg(test)]")
+    a = a if cut < 0 else a[:cut]
+    n = len(re.findall(r"verify_mutable\(\s*&", a))
+    if n < 3:
+        return False, "Assignment::new calls verify_mutable %d time(s); contract expects the single target and both infallible targets to be checked" % n
+    d = C.read(os.path.join(C.REPO, "src/stdlib/del.rs"))
+    if not re.search(r"if let Some\(target_path\) = query\.external_path\(\)\s*&&\s*ctx\.is_read_only_path\(&target_path\)\s*\{\s*return Err", d):
+        return False, "Del::compile no longer rejects read-only external paths before building DelFn"
+    f = C.read(os.path.join(C.REPO, "src/compiler/function.rs"))
+    if not re.search(r"pub fn is_read_only_path\(&self, path: &OwnedTargetPath\) -> bool \{\s*self\.config\.is_read_only_path\(path\)\s*\}", f):
+        return False, "FunctionCompileContext::is_read_only_path no longer delegates to CompileConfig::is_read_only_path"
+    return True, "verify_mutable called %d times in Assignment::new; Del::compile guarded; FunctionCompileContext delegates" % n
